@@ -98,9 +98,11 @@ def dumpstruct_record(rid, rnd):
             out = utils.dumpstruct(v, offset=start, color=color, output="string")
             rec["data"] = list(b)
         else:
+            # the class + bytes form: the dump shows the bytes the structure was parsed from, whatever follows them (finding F66)
             used = data[: T.size]
-            out = utils.dumpstruct(T, used, offset=start, color=color, output="string")
-            rec["data"] = list(used)
+            extra = bytes(rnd.randrange(256) for _ in range(rnd.choice([0, 0, 1, 5, 20])))
+            out = utils.dumpstruct(T, used + extra, offset=start, color=color, output="string")
+            rec["data"] = list((used + extra)[: T.size])      # (an input shorter than the padded size is completed by what follows)
         cut = out.index("\nstruct ")
         head, body = out[:cut].strip("\n"), out[cut + 1:]
         lines, _ = tokenize_lines(head, "") if rec["data"] else ([], True)
